@@ -312,6 +312,13 @@ Definition no_cache_returned (A : abs) : bool := disjoint (a_R A) (a_T A).
 
 Definition safe_args (p : prog) : bool :=
   let A := analyze p in valid p A && no_arg_written A.
+
+(* the same, except for the listed argument positions (used for the named
+   "analysis too coarse" exceptions, which are per argument, not per function) *)
+Definition arg_writes_within (allowed : list nat) (A : abs) : bool :=
+  forallb (fun l => match l with LArg i => existsb (Nat.eqb i) allowed | _ => true end) (a_W A).
+Definition safe_args_except (allowed : list nat) (p : prog) : bool :=
+  let A := analyze p in valid p A && arg_writes_within allowed A.
 Definition safe_ret (p : prog) : bool :=
   let A := analyze p in valid p A && no_cache_returned A.
 Definition safe (p : prog) : bool := safe_args p && safe_ret p.
